@@ -34,3 +34,21 @@ reg("C17", "differential monitor across workers, process counts, limits and chos
 reg("C18", "lasso (repeated loop state) detectors hooked on DiGraph._sorting and on the sequential execution loop, plus an inconclusive-only wall-clock watchdog",
     "Liveness restated as bounded progress: generated graphs with back-edges (self-loop, 2-cycle, long cycle, off-path cycle, typed/untyped, acyclic re-wiring) and an unstable-hash 'cannot progress' family are submitted to the real engine; every submission must end with outputs or an error, a repeated no-progress loop state is a violation with the state as witness.",
     "hangs outside the two monitored loops would surface as inconclusive (watchdog), not as violations")
+reg("C10", "multi-process stress with seeded delay injection (sys.monitoring LINE failpoints) at every statement of the job/cache protocol; exactly-once + payload-integrity oracle over the shared event log",
+    "2-4 real submitter processes race on one task in a shared cache root (with/without an existing result, fast/slow body, debug/cf) while per-process seeded delays are injected between the critical sections; exactly one body start, every submitter gets the full payload (length + digest); the number of distinct cross-process checkpoint interleavings observed is reported.",
+    "interleavings inside a single statement are left to the OS; held on the interleavings observed only")
+reg("C11", "history monitor: event-log execution counts per step vs a cache-protocol model; recursive snapshots of read-only caches and of everything outside the cache root",
+    "Random histories of submissions (tasks and workflows sharing a node identity, rerun/propagate flags, read-only lists, planted incomplete directories) run on the real engine; the model predicts the exact body executions per step; read-only caches must stay byte-identical.",
+    "deterministic term tasks; model of ~25 lines written from the statement")
+reg("C12", "crash-point enumeration from a recorded sys.monitoring trace (os._exit before each LINE event) + result-file truncation, each followed by a real resubmission in a fresh process; step-counted dead-lock-holder lasso detector",
+    "Every (thorough) / every n-th (quick) statement boundary on the execution path of 7 scenarios is a crash point; every truncation length of a python task's result file (thorough); the resubmission must return the complete correct output or (failing task) raise, and must not wait on a lock whose holder is dead.",
+    "crash points are statement boundaries of the traced functions + truncation lengths; a wall-clock watchdog is inconclusive-only", category="fault_enumeration")
+reg("C29", "cross-interpreter round trip (cloudpickle -> fresh subprocess with another PYTHONHASHSEED) with differential comparison of identity, outputs, read-back result and configuration",
+    "Tasks, jobs, submitters (with worker/limits/read-only caches/audit flags) and results are serialised in the harness process and exercised in a fresh interpreter: same cache identity, same outputs as a parent-side run, result written by the child read back equal by the parent.",
+    "task definitions importable in the child (as user modules are)")
+reg("C30", "history monitor over construct/run/set/fresh-run operations in one process and cache root; outputs vs reference for the inputs in force; leak check on constructed node inputs",
+    "Random histories over task objects of an interpreted workflow whose graph depends on every input; after each run the outputs must equal the nested-loop reference for the current inputs; constructed node inputs must be lazy or hold the current value.",
+    "3 workflow specs x 3 values per input; construction cache never cleared inside a history")
+reg("C35", "exception-injection enumeration (InjectedFault before every statement-with-a-call on the recorded Job.run path) + raising hooks/unpicklable outputs + histories with counting TaskHooks; post-run invariants on cwd, info files, job directory",
+    "After every run (ok, failed, interrupted at each enumerated point) the cwd is restored, no <uid>_info.json is left, a job directory holds its record and result, and hooks fire exactly once per real execution and never on a cache hit.",
+    "faults at statement boundaries under the sequential worker; the writers' own failures are exempt from the record/result requirement", category="fault_enumeration")
